@@ -120,4 +120,20 @@ def natOps : StrOps Nat where
 def bundledConvOf : List (Option (Conv Nat)) :=
   Gen.AttrMaps.attrMaps.map fun m => if isMap m then fromDict natOps m else none
 
+/-- the part of an xsi:type value after the first ':' (58); the whole value if there is none -/
+def typeLocal (n : Nat) : Nat :=
+  match (bytes n).dropWhile (fun b => b != 58) with
+  | [] => n
+  | _ :: rest => ofBytes rest
+
+/-- `xsd_types_props` of `AttributeValueBase.set_text`: the local names with a conversion. -/
+def typeKind (n : Nat) : ConvKind :=
+  if n == 0x1696e7465676572 || n == 0x173686f7274 || n == 0x1696e74 || n == 0x16c6f6e67 then .int        -- integer short int long
+  else if n == 0x1666c6f6174 || n == 0x1646f75626c65 then .float                          -- float double
+  else if n == 0x1626f6f6c65616e then .bool                                      -- boolean
+  else if n == 0x164617465 then .date                                      -- date
+  else .preserve
+
+def natTypeOps : TypeOps Nat := { typeLocal := typeLocal, kind := typeKind }
+
 end AttrCode
